@@ -4,6 +4,11 @@
 (* Family F1: every bitmap over positions 0..n+1 (two positions lie beyond the voter list) x    *)
 (*            every subset of {outsider 0, proposer 1, voters} that actually signed.            *)
 (* Family F2: every genuine quorum x every single-field corruption x every action kind.        *)
+(* Family F3: payload binding.  For each of the five voted message types, at the smallest and    *)
+(*            largest item counts the message format allows, an honest full quorum signs the     *)
+(*            message; then ONE field of the message is changed (or none) and the message is     *)
+(*            presented for verification.  Different contents are different payloads, so only    *)
+(*            the unchanged message may be accepted: the signed bytes bind every field.          *)
 EXTENDS Relayer, Json, SequencesExt
 CONSTANTS MaxN, OutFile
 VARIABLE c
@@ -22,7 +27,19 @@ F1 == UNION { { [n |-> n, kind |-> "NewBlockHashes", marks |-> mk, signers |-> s
                  mk \in Marks(n), sg \in Signers(n) } : n \in 0..MaxN }
 F2 == UNION { { [n |-> n, kind |-> kd, marks |-> mk, signers |-> KeysOf(n, mk), mut |-> mu] :
                  mk \in GenuineQuorums(n), kd \in Kinds, mu \in DocMuts } : n \in 0..MaxN }
-Cases == F1 \cup F2
+BindKinds == {"NewBlockHashes", "NewPubkey", "NewConsolidation", "ProcessWithdrawal", "ReplaceWithdrawal"}
+SizesOf(kd) == CASE kd = "NewBlockHashes" -> {1, 2, 15, 16}
+                 [] kd = "ProcessWithdrawal" -> {1, 2, 31, 32}
+                 [] OTHER -> {1}
+FieldsOf(kd) == CASE kd = "NewBlockHashes" -> {"start", "hashFirst", "hashLast", "dropLast", "append"}
+                  [] kd = "NewPubkey" -> {"key"}
+                  [] kd = "NewConsolidation" -> {"tx"}
+                  [] kd = "ProcessWithdrawal" -> {"idFirst", "idLast", "dropId", "appendId", "tx", "fee"}
+                  [] kd = "ReplaceWithdrawal" -> {"pid", "tx", "fee"}
+F3 == UNION { { [n |-> 2, kind |-> kd, marks |-> {0, 1}, signers |-> {1, 2, 3}, mut |-> IF fd = "none" THEN "none" ELSE "otherPayload",
+                 size |-> sz, field |-> fd] : sz \in SizesOf(kd), fd \in FieldsOf(kd) \cup {"none"} } : kd \in BindKinds }
+Plain(x) == [n |-> x.n, kind |-> x.kind, marks |-> x.marks, signers |-> x.signers, mut |-> x.mut, size |-> 0, field |-> "none"]
+Cases == { Plain(x) : x \in F1 \cup F2 } \cup (IF MaxN >= 2 THEN F3 ELSE {})
 
 \* the abstract vote message of a case, relative to the current relayer state
 MsgOf(x) ==
@@ -70,6 +87,9 @@ Hint(x) ==
   /\ Cardinality(x.marks) + 1 >= Threshold(x.n)
 HintIsVerdict == Verdict(c) <=> Hint(c)
 
+(* F3: a message is accepted only with the content the quorum signed. *)
+PayloadBound == (c.size > 0 /\ Verdict(c)) => c.field = "none"
+
 (* An honest quorum is accepted. *)
 HonestQuorumAccepted ==
   (c.mut = "none" /\ c.marks \in GenuineQuorums(c.n) /\ c.signers = KeysOf(c.n, c.marks)) => Verdict(c)
@@ -77,5 +97,5 @@ HonestQuorumAccepted ==
 WriteCases ==
   /\ TLCGet("stats").distinct >= 0
   /\ ndJsonSerialize(OutFile, SetToSeq({ [n |-> x.n, kind |-> x.kind, marks |-> SetToSeq(x.marks), signers |-> SetToSeq(x.signers),
-                                          mut |-> x.mut, acc |-> Hint(x)] : x \in Cases }))
+                                          mut |-> x.mut, size |-> x.size, field |-> x.field, acc |-> Hint(x)] : x \in Cases }))
 =============================================================================
